@@ -228,8 +228,19 @@ pub fn extreme_inputs(seed: u64, candidates: usize, keep: usize) -> Vec<(usize, 
 /// bulk-squeezed stream is the only thing between such a chunk and a wrong coefficient.
 /// Sorted by the position of that chunk, latest first.
 pub fn extreme_inputs_ex(seed: u64, candidates: usize, keep: usize) -> (Vec<(usize, Vec<u8>)>, Vec<(usize, Vec<u8>)>) {
+    let (a, b, _) = extreme_inputs_ex3(seed, candidates, keep);
+    (a, b)
+}
+
+/// As extreme_inputs_ex, plus a third list: inputs whose stream, within the part consumed for 512
+/// coefficients, contains two EQUAL ADJACENT aligned 4-byte words (2^-32 per word: a few per
+/// 4*10^7 candidates). Code that reads the stream in words and compares a word with its
+/// predecessor (a "stalled reader" guard, a run-length shortcut) meets its trigger only there.
+/// The first component is the byte offset of the repeated word.
+pub fn extreme_inputs_ex3(seed: u64, candidates: usize, keep: usize) -> (Vec<(usize, Vec<u8>)>, Vec<(usize, Vec<u8>)>, Vec<(usize, Vec<u8>)>) {
     use crate::refs::keccak::Shake256;
     use std::sync::Mutex;
+    let repeats: Mutex<Vec<(usize, Vec<u8>)>> = Mutex::new(vec![]);
     let best: Mutex<Vec<(usize, Vec<u8>)>> = Mutex::new(vec![]);
     let tails: Mutex<Vec<(usize, Vec<u8>)>> = Mutex::new(vec![]);
     par_for(64, ncpu(), |w, _| {
@@ -270,6 +281,14 @@ pub fn extreme_inputs_ex(seed: u64, candidates: usize, keep: usize) -> (Vec<(usi
             if late_boundary > 0 {
                 tails.lock().unwrap().push((late_boundary, s.clone()));
             }
+            // equal adjacent aligned 4-byte words inside the first 1100 bytes (the part every
+            // 512-coefficient hash consumes)
+            for w in 1..275 {
+                if buf[4 * w..4 * w + 4] == buf[4 * w - 4..4 * w] {
+                    repeats.lock().unwrap().push((4 * w, s.clone()));
+                    break;
+                }
+            }
             if rej576 >= 58 || maxrun >= 6 {
                 // score: rejection-heavy prefixes and long runs both rank high
                 local.push((rej576 + 1000 * maxrun, s));
@@ -287,12 +306,19 @@ pub fn extreme_inputs_ex(seed: u64, candidates: usize, keep: usize) -> (Vec<(usi
     let mut rest: Vec<(usize, Vec<u8>)> = v.into_iter().skip(keep / 2).collect();
     rest.sort_by(|a, b| (b.0 % 1000).cmp(&(a.0 % 1000)));
     out.extend(rest.into_iter().take(keep - keep / 2));
-    (out, tl)
+    let mut rp = repeats.into_inner().unwrap();
+    rp.sort();
+    (out, tl, rp)
 }
 
 pub fn extremes(ctx: &Ctx, rep: &mut Report) {
-    let cands = ctx.sz(40_000_000, 600_000_000);
-    let (xs, tails) = extreme_inputs_ex(ctx.seed, cands, ctx.sz(4000, 80000));
+    let cands = ctx.sz(128_000_000, 600_000_000);
+    let (xs, tails, repeats) = extreme_inputs_ex3(ctx.seed, cands, ctx.sz(4000, 80000));
+    for (pos, s) in &repeats {
+        check(s, rep);
+        rep.count("inputs_with_a_repeated_aligned_word_in_the_stream", 1);
+        rep.stat_max("repeated_word_offset", *pos as f64);
+    }
     for (pos, s) in &tails {
         check(s, rep);
         rep.count("inputs_with_a_threshold_chunk_late_in_the_stream", 1);
